@@ -59,6 +59,14 @@ func (e *e2eEnv) run(args ...string) (int, string, string) {
 	return code, so.String(), se.String()
 }
 
+func (e *e2eEnv) goBuild(patterns ...string) (string, error) {
+	cmd := exec.Command("go", append([]string{"build"}, patterns...)...)
+	cmd.Dir = e.dir
+	cmd.Env = append(os.Environ(), "GOFLAGS=-mod=mod", "GOPROXY=off", "GOSUMDB=off", "GOTOOLCHAIN=local")
+	out, err := cmd.CombinedOutput()
+	return string(out), err
+}
+
 func (e *e2eEnv) tree() map[string]string {
 	res := map[string]string{}
 	filepath.Walk(e.dir, func(p string, info os.FileInfo, err error) error {
@@ -130,8 +138,14 @@ func e2eC17(repo, dir string, vals map[string]string) ([]string, error) {
 	if code != 1 || !strings.Contains(se, "Usage") {
 		bad = append(bad, fmt.Sprintf("missing command exits %d / usage not on stderr", code))
 	}
+	for _, argv := range [][]string{{"gen", "-g", "wrapErrors"}, {"gen", "-cwd", "."}, {"gen", "-build-tags", "x"}, {"gen", "--"}, {"gen", "-output-constraint", "x"}} {
+		code, _, se = e.run(argv...)
+		if code != 1 || !strings.Contains(se, "Usage") {
+			bad = append(bad, fmt.Sprintf("`goverter %s` (no package pattern) exits %d / no usage text on stderr, want the usage error (1)", strings.Join(argv, " "), code))
+		}
+	}
 	if d := sameTree(before, e.tree()); len(d) > 0 {
-		bad = append(bad, "usage error generated files")
+		bad = append(bad, "usage error generated files: "+strings.Join(d, ", "))
 	}
 	code, _, se = e.run("gen", "./good", "./good2")
 	after := e.tree()
@@ -235,6 +249,43 @@ func e2eC16(repo, dir string, vals map[string]string) ([]string, error) {
 	}
 	bad = append(bad, e2eStale(e, "good")...)
 	bad = append(bad, e2eCustomCLI(repo, e)...)
+	// several converters sharing one file: one header, one constraint line, and the package still compiles
+	e.write("two/in.go", "package two\n\n// goverter:converter\ntype A interface {\n\tConvert(source In) Out\n}\n\n// goverter:converter\ntype B interface {\n\tConvert(source In) Out\n}\n\n// goverter:converter\ntype C interface {\n\tConvert(source In) Out\n}\ntype In struct{ A int }\ntype Out struct{ A int }\n")
+	for _, cons := range [][]string{nil, {"-build-tags", "gen", "-output-constraint", "!gen"}} {
+		os.RemoveAll(filepath.Join(e.dir, "two/generated"))
+		code, _, se = e.run(append(append([]string{"gen"}, cons...), "./two")...)
+		b, _ = os.ReadFile(filepath.Join(e.dir, "two/generated/generated.go"))
+		if n := strings.Count(string(b), "//go:build"); code != 0 || n != 1 {
+			bad = append(bad, fmt.Sprintf("three converters in one file: exit %d, %d //go:build lines (want 1): %s", code, n, firstLine(se)))
+		}
+		if n := strings.Count(string(b), "DO NOT EDIT"); n != 1 {
+			bad = append(bad, fmt.Sprintf("three converters in one file: %d header lines", n))
+		}
+		if out, err := e.goBuild("./two/..."); err != nil {
+			bad = append(bad, "three converters in one file: generated package does not compile: "+firstLine(out))
+		}
+	}
+	// a variables block carries the constraint as well, and outdated output never blocks regeneration
+	vars := "package vars\n\n// goverter:variables\nvar (\n\tConvert func(source In) Out\n)\n\ntype In struct{ NAME int }\ntype Out struct{ NAME int }\n"
+	for _, cons := range [][]string{nil, {"-build-tags", "gen", "-output-constraint", "!gen"}} {
+		want := "//go:build !goverter"
+		if cons != nil {
+			want = "//go:build !gen"
+		}
+		os.RemoveAll(filepath.Join(e.dir, "vars"))
+		e.write("vars/in.go", strings.ReplaceAll(vars, "NAME", "A"))
+		code, _, se = e.run(append(append([]string{"gen"}, cons...), "./vars")...)
+		b, _ = os.ReadFile(filepath.Join(e.dir, "vars/in.gen.go"))
+		ls := strings.Split(string(b), "\n")
+		if code != 0 || len(ls) < 2 || ls[1] != want {
+			bad = append(bad, fmt.Sprintf("variables block: exit %d, second line %q, want %q: %s", code, strings.Join(ls[1:min(2, len(ls))], ""), want, firstLine(se)))
+		}
+		e.write("vars/in.go", strings.ReplaceAll(vars, "NAME", "Renamed"))
+		code, _, se = e.run(append(append([]string{"gen"}, cons...), "./vars")...)
+		if code != 0 {
+			bad = append(bad, "variables block: outdated output blocks regeneration: "+firstLine(se))
+		}
+	}
 	// several build tags: both package loads must see all of them; output in the same package as the
 	// interface, previous output broken / outdated
 	same := "package same\n\n// goverter:converter\n// goverter:output:file ./generated.go\n// goverter:output:package e2e/same\n// goverter:extend Custom\ntype C interface {\n\tConvert(source In) Out\n}\ntype In struct{ A int }\ntype Out struct{ A string }\n\nfunc Custom(i int) string { return \"\" }\n"
@@ -265,6 +316,7 @@ func e2eStale(e *e2eEnv, pkg string) []string {
 		"a longer unrelated file":               "// Code generated by github.com/jmattheis/goverter, DO NOT EDIT.\n//go:build !goverter\n\npackage generated\n\n" + strings.Repeat("// stale line\n", 200),
 		"a prefix of the new output":            string(clean[:len(clean)/2]),
 		"an empty file":                         "",
+		"garbage of exactly the new length":     strings.Repeat("x", len(clean)),
 	}
 	var names []string
 	for n := range variants {
@@ -334,6 +386,32 @@ func e2eCustomCLI(repo string, e *e2eEnv) []string {
 	return bad
 }
 
+// e2eExistingPackage: the output directory holds a hand-written file of a package named differently from the
+// directory, which refers to code that is generated: clean tree, second run and a run over outdated output give
+// the same bytes, with the existing package's name in the package clause.
+func e2eExistingPackage(e *e2eEnv) []string {
+	var bad []string
+	hist := "package hist\n\n// goverter:converter\n// goverter:output:file ./out/conv.gen.go\ntype C interface {\n\tConvert(source In) Out\n}\ntype In struct{ FIELD int }\ntype Out struct{ FIELD int }\n"
+	e.write("hist/in.go", strings.ReplaceAll(hist, "FIELD", "A"))
+	e.write("hist/out/api.go", "package mypkg\n\nimport \"e2e/hist\"\n\n// New returns the converter.\nfunc New() hist.C { return &CImpl{} }\n")
+	var outs3 []string
+	for i := 0; i < 3; i++ {
+		if i == 2 {
+			// outdated output: generated for another field name
+			e.write("hist/in.go", strings.ReplaceAll(hist, "FIELD", "B"))
+			e.run("gen", "./hist")
+			e.write("hist/in.go", strings.ReplaceAll(hist, "FIELD", "A"))
+		}
+		code, _, se := e.run("gen", "./hist")
+		b, _ := os.ReadFile(filepath.Join(e.dir, "hist/out/conv.gen.go"))
+		outs3 = append(outs3, fmt.Sprintf("%d|%s|%s", code, firstLine(se), b))
+	}
+	if outs3[0] != outs3[1] || outs3[0] != outs3[2] || !strings.Contains(outs3[0], "\npackage mypkg\n") {
+		bad = append(bad, "output next to a hand-written file (package mypkg in directory out) that needs the generated code: first run, second run and a run over outdated output differ, or the package clause is not the existing package's")
+	}
+	return bad
+}
+
 func isPrintable(s string) bool {
 	for _, c := range s {
 		if c < 0x21 || c > 0x7e {
@@ -389,6 +467,7 @@ func e2eC15(repo, dir string, vals map[string]string) ([]string, error) {
 	if code != 1 {
 		bad = append(bad, "same file with the same package path but different package names accepted")
 	}
+	bad = append(bad, e2eExistingPackage(e)...)
 	// @cwd/ with a relative -cwd lands under the working directory
 	sub, err2 := newE2E(repo, filepath.Join(dir, "rel"))
 	if err2 == nil {
@@ -492,6 +571,26 @@ func e2eC09(repo, dir string, vals map[string]string) ([]string, error) {
 		}
 		os.Remove(sub.bin)
 	}
+	// overlapping / repeated package patterns select each package once
+	e.write("oa/in.go", strings.Replace(e2eGood, "package good", "package oa", 1))
+	e.write("ob/in.go", strings.Replace(e2eGood, "package good", "package ob", 1))
+	ref := map[string]string{}
+	for i, argv := range [][]string{{"gen", "./oa", "./ob"}, {"gen", "./oa", "./ob", "./oa"}, {"gen", "./oa/...", "./ob", "e2e/oa"}, {"gen", "./ob", "./oa"}} {
+		os.RemoveAll(filepath.Join(e.dir, "oa/generated"))
+		os.RemoveAll(filepath.Join(e.dir, "ob/generated"))
+		code, _, se := e.run(argv...)
+		got := map[string]string{"<exit>": fmt.Sprintf("%d %s", code, firstLine(se))}
+		for _, f := range []string{"oa/generated/generated.go", "ob/generated/generated.go"} {
+			b, _ := os.ReadFile(filepath.Join(e.dir, f))
+			got[f] = string(b)
+		}
+		if i == 0 {
+			ref = got
+		} else if d := sameTree(ref, got); len(d) > 0 {
+			bad = append(bad, fmt.Sprintf("`goverter %s` differs from `goverter gen ./oa ./ob` in %s", strings.Join(argv, " "), strings.Join(d, ", ")))
+		}
+	}
+	bad = append(bad, e2eExistingPackage(e)...)
 	// several simultaneous faults: the diagnostic is the same in every fresh process
 	e.write("q/in.go", "package q\n\n// goverter:converter\ntype C interface {\n\t// goverter:map A B\n\tA2D(source []A) []D\n\t// goverter:map A B\n\tD2A(source []D) []A\n\t// goverter:map A B\n\tB2C(source []B) []C\n\t// goverter:map A B\n\tC2B(source []C) []B\n}\ntype A struct{ A int }\ntype B struct{ B int }\ntype C struct{ B int }\ntype D struct{ B int }\n")
 	seen := map[string]bool{}
